@@ -22,8 +22,17 @@ func magicOf(name string) [4]byte { return [4]byte{'S', 'I', 'M', name[0]} }
 
 // compFault lets a run make the k-th operation of an algorithm fail.
 type compFault struct {
-	Op string // "write", "close", "reset", "read"
-	At int    // 1-based count across the run for this algorithm; 0 = never
+	Op      string // "write", "close", "reset", "read"
+	At      int    // 1-based count across the run for this algorithm; 0 = never
+	WrapEOF bool   // the failure is reported with an error that wraps io.EOF (a sticky last-read error, say)
+}
+
+// faultErr is the error an injected failure reports.
+func (a *algo) faultErr(what string) error {
+	if a.fault.WrapEOF {
+		return fmt.Errorf("sim: injected %s failure: %w", what, io.EOF)
+	}
+	return errors.New("sim: injected " + what + " failure")
 }
 
 type algo struct {
@@ -91,7 +100,7 @@ func (c *simCompressor) Write(p []byte) (int, error) {
 		c.a.violate(fmt.Sprintf("compressor %s#%d written without Reset", c.a.name, c.id))
 	}
 	if c.a.tick("write") {
-		return 0, errors.New("sim: injected compressor write failure")
+		return 0, c.a.faultErr("compressor write")
 	}
 	c.buf.Write(p)
 	return len(p), nil
@@ -100,7 +109,7 @@ func (c *simCompressor) Write(p []byte) (int, error) {
 func (c *simCompressor) Close() error {
 	c.reset = false
 	if c.a.tick("close") {
-		return errors.New("sim: injected compressor close failure")
+		return c.a.faultErr("compressor close")
 	}
 	m := magicOf(c.a.name)
 	out := make([]byte, 0, 16)
@@ -161,7 +170,7 @@ func (d *simDecompressor) Reset(r io.Reader) error {
 		d.r.Reset(r)
 	}
 	if d.a.tick("reset") {
-		return errors.New("sim: injected decompressor reset failure")
+		return d.a.faultErr("decompressor reset")
 	}
 	var m [4]byte
 	if _, err := io.ReadFull(d.r, m[:]); err != nil {
@@ -188,7 +197,7 @@ func (d *simDecompressor) Read(p []byte) (int, error) {
 		d.a.violate(fmt.Sprintf("decompressor %s#%d read without Reset", d.a.name, d.id))
 	}
 	if d.a.tick("read") {
-		return 0, errors.New("sim: injected decompressor read failure")
+		return 0, d.a.faultErr("decompressor read")
 	}
 	if d.a.yield != nil && !d.yielded {
 		d.yielded = true
@@ -247,6 +256,10 @@ func (d *simDecompressor) Read(p []byte) (int, error) {
 }
 
 func (d *simDecompressor) Close() error {
+	if d.a.tick("close") {
+		d.reset, d.closed, d.inUse, d.yielded = false, true, false, false
+		return d.a.faultErr("decompressor close")
+	}
 	d.reset = false
 	d.closed = true
 	d.inUse = false
